@@ -330,24 +330,20 @@ fn run_all(ctx: &mut Ctx) {
                         return;
                     }
                 };
-                let Ok(c) = make_runner(prog.clone(), &cfg) else { return };
+                // a panic while building the runner (sierra-to-casm) is C08/C14 business, not this check's
+                let Ok(Ok(c)) = guarded(|| make_runner(prog.clone(), &cfg)) else {
+                    ctx.count("runner_build_failed_or_panicked", 1);
+                    return;
+                };
+                let sizes = cairo_lang_sierra_type_size::ProgramRegistryInfo::new(&prog).ok().map(|i| i.type_sizes().clone());
                 for f in &prog.funcs {
                     if !fname(f).starts_with("test::") {
                         continue;
                     }
                     let Some(inputs) = input_vectors(&prog, f, true, 3, max_vec) else { continue };
-                    // results that hold addresses (arrays, boxes, dicts) or the prover-chosen random EC state are
-                    // not observable values: a relocated segment legitimately changes them
-                    let comparable = f.signature.ret_types.iter().all(|t| {
-                        let n = t.debug_name.as_ref().map(|s| s.to_string()).unwrap_or_default();
-                        IMPLICITS.contains(&n.as_str()) || crate::cexec::pointer_free(&prog, t, 0)
-                    });
-                    if !comparable {
-                        if vi == 0 {
-                            ctx.count("functions_with_pointer_results_not_judged", 1);
-                        }
-                        continue;
-                    }
+                    // results are compared address-free: arrays/boxes/nullables are dereferenced through the final
+                    // memory; functions whose result cannot be canonicalised (dicts, EC state) are not judged
+                    let Some(sizes) = &sizes else { continue };
                     if vi == 0 {
                         ctx.count("functions", 1);
                     }
@@ -361,6 +357,10 @@ fn run_all(ctx: &mut Ctx) {
                             }
                         };
                         let (hres, log) = honest;
+                        let Some(hobs) = crate::cexec::observable(&prog, sizes, f, &hres.value, &hres.memory) else {
+                            ctx.count("honest_results_not_canonicalisable", 1);
+                            continue;
+                        };
                         // a flipped flag can send a loop astray: deviated runs get 4x the honest step count + 3000
                         let step_cap = hres.used_resources.basic_resources.n_steps * 4 + 3_000;
                         ctx.count("honest_runs", 1);
@@ -392,9 +392,15 @@ fn run_all(ctx: &mut Ctx) {
                                     }
                                     Ok(Err(_)) | Ok(Ok((Err(_), _))) => ctx.outcome(&format!("{kind}:vm-failure")),
                                     Ok(Ok((Ok(res), _))) => {
-                                        if res.value == hres.value && res.gas_counter == hres.gas_counter {
+                                        let obs = crate::cexec::observable(&prog, sizes, f, &res.value, &res.memory);
+                                        let same_value = obs.as_ref() == Some(&hobs);
+                                        if obs.is_none() {
+                                            // the deviated run ended "successfully" with a value that cannot even be read
+                                            // back (dangling pointer): it differs from the honest, readable one
+                                        }
+                                        if same_value && res.gas_counter == hres.gas_counter {
                                             ctx.outcome(&format!("{kind}:same-result"));
-                                        } else if res.value == hres.value {
+                                        } else if same_value {
                                             ctx.outcome(&format!("{kind}:same-value-different-gas"));
                                             ctx.violation(
                                                 format!("hint-changes-gas:{kind}"),
@@ -405,7 +411,7 @@ fn run_all(ctx: &mut Ctx) {
                                             ctx.outcome(&format!("{kind}:DIFFERENT-RESULT"));
                                             ctx.violation(
                                                 format!("hint-changes-result:{kind}"),
-                                                format!("a dishonest {kind} output ({alt_name}) yields a successful run with a different result: {} vs honest {}", value_json(&res.value), value_json(&hres.value)),
+                                                format!("a dishonest {kind} output ({alt_name}) yields a successful run with a different result: {} vs honest {hobs}", obs.clone().unwrap_or_else(|| format!("<unreadable> {}", value_json(&res.value)))),
                                                 case(),
                                             );
                                         }
